@@ -514,6 +514,7 @@ func threeRun(abrupt bool) {
 	cs[1].LogTaps("conn-S1")
 	vrt.Observe("S0=%v S1=%v S2=%v", ws[0].got, ws[1].got, ws[2].got)
 }
+
 // ctxCancelled: the subscription was taken through a proxy bound to a context
 // (Proxy.WithContext) and the context is done when the subscriber cancels: the
 // unregistration call fails, the cancellation must still take effect locally
@@ -557,6 +558,7 @@ func ctxCancelled() {
 	fx.Settle()
 	vrt.Observe("A=%v B=%v", a.got, b.got)
 }
+
 // twoObjects: the same signal of two objects of one service is followed
 // through one connection; each subscription stands on its own.
 func twoObjects() {
@@ -654,6 +656,7 @@ func twoObjects() {
 	fx.Settle()
 	vrt.Observe("childFirst=%v root=%v child=%v again=%v", childFirst, r1.got, c1w.got, r2.got)
 }
+
 // manySubscribers: twelve subscribers on twelve connections (more than any
 // ten-slot table of the implementation); every one receives every event once.
 func manySubscribers() {
